@@ -73,14 +73,17 @@ META = dict(
          'printable ASCII whatever the octets, that the field code written from the JSON text is the C02 field code of the bytes for '
          'every width (C09_json_text_field_code, C09_json_file_encode_same for whole value lists and encodeData), that latin-1 is the '
          'ONLY serialiser the encoder inverts (C09_json_text_latin1_unique), and refutes the "UTF-8 when valid" serialiser on '
-         'b"Z\\xc3\\xbcrich" (C09_utf8_when_valid_loses_roundtrip). Tie and oracle on the real command line: every message of a '
+         'b"Z\\xc3\\xbcrich" (C09_utf8_when_valid_loses_roundtrip); for the TEXT formats the value token of character data is '
+         'modelled too (repr of bytes, ast.literal_eval) and C09_bytes_repr_roundtrip proves literal_eval(repr(b)) == b for every '
+         'octet string. Tie and oracle on the real command line: every message of a '
          'character-data stream (001015/001019/001026/205YYY/208YYY/section 2 bytes, plain, replicated, with associated fields, '
          'compressed or not; octets sweeping all 256 values, valid 2-/3-/4-byte UTF-8, invalid UTF-8, the missing pattern, NULs, '
          'quotes/backslashes/control characters, blanks), a sample of the other streams and sample files is run through '
          'pybufrkit.main() in-process (argparse + commands.command_decode / command_encode) for the four formats, the encoder reading '
          'a file or stdin, and a few through real processes and pipes: each output read back as command_encode reads it must carry '
          'the data of the flat JSON file and encode to the bytes of the plain re-encode; the literal the command line wrote for each '
-         'character value, json.loads of it and the bits write_bytes makes of it are compared with the model (driver op jsontext), '
+         'character value, json.loads of it, the bits write_bytes makes of it, its repr token and literal_eval of that are compared with '
+         'the model (driver op jsontext), '
          'json.dumps/json.loads of arbitrary strings and hostile literals with the model\'s escaper/scanner; the option glue '
          '(encode --preamble/--append/overwrite, split, decode -m / several files, info [-t|-c|-m], subset, query [-j [-n]], script '
          '[-f|-]) is compared with the API calls it wraps.',
